@@ -46,11 +46,24 @@ class WH:
     def __init__(self, n):
         self.P = [(real('XO%d' % k), real('YO%d' % k), real('SX%d' % k), real('SY%d' % k), angle_deg('TH%d' % k)) for k in range(n)]
         self.calls = []
+        self.srcs = None
+
+    def _which(self, pos):
+        if self.srcs is not None:
+            for k, s_ in enumerate(self.srcs):
+                if pos[0] is s_.ra:
+                    return k
+        return len(self.calls)
 
     def sky2pix_ellipse(self, pos, a, b, pa):
-        k = len(self.calls)
+        k = self._which(pos)
         self.calls.append((pos, a, b, pa))
         return self.P[k]
+
+    def sky2pix(self, pos):
+        # the pixel position of the source alone (1-based, as sky2pix_ellipse reports it)
+        k = self._which(pos)
+        return [self.P[k][0], self.P[k][1]]
 
 
 def oracle_exponent(c, P, i, j, F2C):
@@ -175,7 +188,7 @@ def h_nan(ae, R, C, which):
     return h
 
 
-def h_two(ae, R, C):
+def h_two(ae, R, C, same_shape=False):
     def h(c):
         c.index_range = (-1, max(R, C) + 1)
         F2C = real('FWHM2CC')
@@ -184,6 +197,11 @@ def h_two(ae, R, C):
         ae.FWHM2CC = F2C
         wh = WH(2)
         srcs = [Src(0), Src(1)]
+        if same_shape:
+            # two catalogue rows with the very same (a, b, pa) at different positions: the pixel shape still comes from the WCS
+            # at EACH position (plate scale and local north vary across an image)
+            srcs[1].a, srcs[1].b, srcs[1].pa = srcs[0].a, srcs[0].b, srcs[0].pa
+            wh.srcs = srcs
         for k in range(2):
             XO, YO, SX, SY, TH = wh.P[k]
             c.assume(SX.e >= 4 * max(R, C))
@@ -193,7 +211,7 @@ def h_two(ae, R, C):
             c.assume(YO.e >= 1)
             c.assume(YO.e <= C)
         m = ae.make_model(srcs, (R, C), wh)
-        tag = 'make_model additivity[%dx%d]' % (R, C)
+        tag = 'make_model additivity[%dx%d%s]' % (R, C, ', rows sharing (a, b, pa)' if same_shape else '')
         ok = True
         cl = []
         for i in range(R):
@@ -209,6 +227,8 @@ def h_two(ae, R, C):
                 names = sorted(ts)
                 cl.append(core.lift(val) == srcs[0].peak_flux.e * ts[names[0]][0] + srcs[1].peak_flux.e * ts[names[1]][0])
         c.oblige(tag + ':every pixel is the sum of the two sources', z3.And(cl + [z3.BoolVal(ok)]))
+        if same_shape:
+            c.oblige(tag + ':the pixel ellipse of every row is asked of the WCS at that row\'s own position', z3.BoolVal(len(wh.calls) == 2 and wh.calls[0][0][0] is srcs[0].ra and wh.calls[1][0][0] is srcs[1].ra))
         return dict()
     return h
 
@@ -516,6 +536,8 @@ def run(rep):
         meta.append(('undefined-coordinates', 2, 3))
     plans.append((h_two(ae, 2, 2), dict(wall_s=600)))
     meta.append(('two', 2, 2))
+    plans.append((h_two(ae, 1, 2, same_shape=True), dict(wall_s=600)))
+    meta.append(('two-same-shape', 1, 2))
     plans.append((h_mask(ae, 1, 2, True), dict(wall_s=600)))
     meta.append(('mask', 1, 2))
     plans.append((h_mask(ae, 2, 1, False), dict(wall_s=600)))
